@@ -1442,18 +1442,18 @@ class Sequence:
             chargeType = rand.sample([1, 2, 3], 2)
 
         if(chargeType[0] == 1):
-            swapPair1 = rand.sample(posInd, 1)
+            swapPair1 = rand.sample(sorted(posInd), 1)
         elif(chargeType[0] == 2):
-            swapPair1 = rand.sample(negInd, 1)
+            swapPair1 = rand.sample(sorted(negInd), 1)
         elif(chargeType[0] == 3):
-            swapPair1 = rand.sample(neutInd, 1)
+            swapPair1 = rand.sample(sorted(neutInd), 1)
 
         if(chargeType[1] == 1):
-            swapPair2 = rand.sample(posInd, 1)
+            swapPair2 = rand.sample(sorted(posInd), 1)
         elif(chargeType[1] == 2):
-            swapPair2 = rand.sample(negInd, 1)
+            swapPair2 = rand.sample(sorted(negInd), 1)
         elif(chargeType[1] == 3):
-            swapPair2 = rand.sample(neutInd, 1)
+            swapPair2 = rand.sample(sorted(neutInd), 1)
         return self.swapRes(swapPair1[0], swapPair2[0])
 
     #...................................................................................#
